@@ -49,6 +49,21 @@ namespace xv
             return { m, e };
         }
     };
+    // the same object on both sides of an operator / in every argument slot
+#define XV_SELF(NAME, STMT)                          \
+    struct NAME                                      \
+    {                                                \
+        template <class T, class X>                  \
+        static X f(X a, long) { STMT; return a; }    \
+    };
+    XV_SELF(op_selfadd, a += a)
+    XV_SELF(op_selfsub, a -= a)
+    XV_SELF(op_selfmul, a *= a)
+    XV_SELF(op_selfmul_op, a = a * a)
+    XV_SELF(op_selfdiv, a /= a)
+    XV_SELF(op_selfand, a &= a)
+    XV_SELF(op_selfor, a |= a)
+    XV_SELF(op_selffma, a = xs::fma(a, a, a))
     struct op_add_assign
     {
         template <class T, class X>
@@ -134,6 +149,14 @@ namespace xv
         reg_b<op_or_assign>("C02", "or.assign", ft);
         reg_b<op_xor_assign>("C02", "xor.assign", ft);
         reg_u<op_sqrt>("C02", "sqrt", ft);
+        reg_u<op_selfadd>("C02", "selfadd", ft);
+        reg_u<op_selfsub>("C02", "selfsub", ft);
+        reg_u<op_selfmul>("C02", "selfmul", ft);
+        reg_u<op_selfmul_op>("C02", "selfmul.op", ft);
+        reg_u<op_selfdiv>("C02", "selfdiv", ft);
+        reg_u<op_selfand>("C02", "selfid.and", ft);
+        reg_u<op_selfor>("C02", "selfid.or", ft);
+        reg_u<op_selffma>("C02", "selffma", ft);
         reg_u<op_neg>("C02", "neg", ft);
         reg_u<op_neg_fn>("C02", "neg.fn", ft);
         reg_u<op_abs>("C02", "abs", ft);
